@@ -119,6 +119,21 @@ class BadDetailsSyntaxError(SyntaxError):
         SyntaxError.__init__(self, msg, ("f", 1, "a", "text"))
 
 
+class SilentBadReprError(Exception):
+    """No message (str() is empty), and repr() fails - for the library; the harness's own reports still get a name."""
+
+    def __str__(self):
+        return ""
+
+    def __repr__(self):
+        import sys as _sys
+
+        caller = _sys._getframe(1).f_code.co_filename
+        if os.sep + "eliot" + os.sep in caller and not caller.startswith(os.path.dirname(os.path.abspath(__file__))):
+            raise RuntimeError("repr() of this exception raises")
+        return "SilentBadReprError()"
+
+
 EXC_TABLE = [
     ValueError,
     KeyError,
@@ -141,6 +156,7 @@ EXC_TABLE = [
     BadStrBaseError,
     NoModuleError,
     BadDetailsSyntaxError,
+    SilentBadReprError,
 ]
 BASE_ONLY = set(i for i, c in enumerate(EXC_TABLE) if not issubclass(c, Exception))
 
@@ -447,7 +463,11 @@ class Interp(object):
                 # unless we are already reporting an extractor failure
                 if _nested:
                     return {}, []
-                x = make_exc(beh["raise"], 0)
+                if beh.get("none"):
+                    # the extractor returns None instead of a dict: a failing extractor like any other
+                    x = _none_is_not_a_dict()
+                else:
+                    x = make_exc(beh["raise"], 0)
                 xf, _ = self.extractor_fields(x, _nested=True)
                 tbf = dict(reason=safe_str(x), exception=exc_name(x))
                 for k, v in xf.items():
@@ -1194,10 +1214,29 @@ def _extractor_function(beh):
             return persistent
         return lambda e: dict(beh["fields"])
 
+    if beh.get("none"):
+        # forgot the return statement on one branch
+        return lambda e: None
+
+    if beh.get("lazy"):
+        # written as a generator of pairs that fails part way through
+        def lazy(e):
+            yield "x", 1
+            raise make_exc(beh["raise"], 0)
+
+        return lazy
+
     def raising(e):
         raise make_exc(beh["raise"], 0)
 
     return raising
+
+
+def _none_is_not_a_dict():
+    try:
+        dict(None)
+    except TypeError as e:
+        return e
 
 
 class InjectedFault(Exception):
